@@ -12,7 +12,7 @@ pub const IS_F32: bool = false;
 /// relative tolerance of the smooth class (scaled by the magnitude of the terms involved)
 pub fn tau() -> f64 {
     if IS_F32 {
-        2e-4
+        2e-5
     } else {
         1e-9
     }
